@@ -67,9 +67,20 @@ func (a *FuncAn) elemLenOf(v ssa.Value, seen map[ssa.Value]bool) elemLenRes {
 			}
 		}
 		return res
+	case *ssa.Parameter:
+		if l, ok := a.paramElem[x]; ok {
+			return elemLenRes{l: l, ok: true}
+		}
+	case *ssa.Extract:
+		if call, ok := x.Tuple.(*ssa.Call); ok {
+			return a.callElemLen(call, x.Index)
+		}
 	case *ssa.Call:
 		b, ok := x.Call.Value.(*ssa.Builtin)
-		if !ok || b.Name() != "append" || len(x.Call.Args) != 2 {
+		if !ok {
+			return a.callElemLen(x, 0)
+		}
+		if b.Name() != "append" || len(x.Call.Args) != 2 {
 			return elemLenRes{}
 		}
 		base := a.elemLenOf(x.Call.Args[0], seen)
@@ -152,23 +163,96 @@ func (a *FuncAn) elemLenOfElement(v ssa.Value) (Lin, bool) {
 	if !r.ok || r.any {
 		return Lin{}, false
 	}
-	if !a.noOtherElementStores(ia.X.Type()) {
+	if !a.elemsStable(ia.X.Type()) {
 		return Lin{}, false
 	}
-	// the slice value must not have been handed to a callee that could replace elements
-	for _, b := range a.Fn.Blocks {
+	return r.l, true
+}
+
+// elemsStable: the function stores into elements of slices of type T only through append varargs, and hands values
+// of that type only to callees that do not store into such elements either.
+func (a *FuncAn) elemsStable(T types.Type) bool {
+	return !a.E.mayStoreElems(a.Fn, T, map[*ssa.Function]bool{})
+}
+
+// mayStoreElems: f (or a callee that receives a value of type T from it) may replace an element of a slice of type T.
+func (e *Engine) mayStoreElems(f *ssa.Function, T types.Type, seen map[*ssa.Function]bool) bool {
+	if seen[f] {
+		return false
+	}
+	seen[f] = true
+	if f.Blocks == nil {
+		return true
+	}
+	for _, b := range f.Blocks {
 		for _, ins := range b.Instrs {
-			if call, ok := ins.(ssa.CallInstruction); ok {
-				if _, isB := call.Common().Value.(*ssa.Builtin); isB {
+			switch x := ins.(type) {
+			case *ssa.Store:
+				ia, ok := x.Addr.(*ssa.IndexAddr)
+				if !ok {
 					continue
 				}
-				for _, arg := range call.Common().Args {
-					if types.Identical(arg.Type(), ia.X.Type()) {
-						return Lin{}, false
+				if _, isAlloc := ia.X.(*ssa.Alloc); isAlloc {
+					continue // varargs array of an append
+				}
+				if types.Identical(ia.X.Type(), T) {
+					return true
+				}
+			case ssa.CallInstruction:
+				if _, isB := x.Common().Value.(*ssa.Builtin); isB {
+					continue
+				}
+				passes := false
+				for _, arg := range x.Common().Args {
+					if types.Identical(arg.Type(), T) {
+						passes = true
+					}
+				}
+				if !passes {
+					continue
+				}
+				cs := e.Callees(x)
+				if len(cs) == 0 {
+					return true
+				}
+				for _, c := range cs {
+					if e.mayStoreElems(c, T, seen) {
+						return true
 					}
 				}
 			}
 		}
 	}
-	return r.l, true
+	return false
+}
+
+// callElemLen: element length of result idx of a call, from the callees' summaries, instantiated at the call site.
+func (a *FuncAn) callElemLen(call *ssa.Call, idx int) elemLenRes {
+	sums, ok := a.E.joinSummaries(call)
+	if !ok || len(sums) == 0 {
+		return elemLenRes{}
+	}
+	var pl *ParamLin
+	for i, s := range sums {
+		q := s.ElemLen[idx]
+		if q == nil {
+			return elemLenRes{}
+		}
+		if i == 0 {
+			pl = q
+		} else if !pl.equal(q) {
+			return elemLenRes{}
+		}
+	}
+	l, ok := a.instantiate(pl, call)
+	if !ok || !a.globalLin(l) {
+		return elemLenRes{}
+	}
+	return elemLenRes{l: l, ok: true}
+}
+
+// isSliceOfSeq: [][]T or []string-like types whose elements have a length.
+func isSliceOfSeq(t types.Type) bool {
+	sl, ok := t.Underlying().(*types.Slice)
+	return ok && isSeq(sl.Elem())
 }
